@@ -27,6 +27,8 @@ func main() {
 	switch os.Args[1] {
 	case "smoke":
 		os.Exit(smoke(newPool()))
+	case "dev":
+		runDev(os.Args[2], os.Args[3:])
 	}
 	fmt.Fprintln(os.Stderr, "unknown check", os.Args[1])
 	os.Exit(2)
